@@ -42,6 +42,8 @@ pub struct Profile {
     pub region_interior: bool,
     /// also request after-code / replacements on a function's final `end` (where only before-code is emitted)
     pub final_end_after: bool,
+    /// also generate `clear_instr_at` calls that take earlier injections back
+    pub clears: bool,
 }
 
 impl Profile {
@@ -76,6 +78,7 @@ impl Profile {
             misapplied: false,
             region_interior: false,
             final_end_after: false,
+            clears: false,
         }
     }
 }
@@ -1498,6 +1501,38 @@ impl OpGen<'_> {
                 let mut sites = vec![];
                 for _ in 0..n_sites {
                     let mode = *self.rng.pick(&self.p.modes);
+                    if self.p.clears && self.rng.chance(1, 8) {
+                        // take back what this history injected somewhere in this function (one list)
+                        let mut lists: Vec<(u32, Mode)> = vec![];
+                        for (i, b) in l.body.iter().enumerate() {
+                            let i = i as u32;
+                            if sites.iter().any(|s: &Site| s.instr == i) {
+                                continue; // never together with an injection of the same op
+                            }
+                            if !b.before.ins.is_empty() {
+                                lists.push((i, Mode::Before));
+                            }
+                            if !b.after.ins.is_empty() {
+                                lists.push((i, Mode::After));
+                            }
+                            if b.alternate.is_some() {
+                                lists.push((i, Mode::Alternate));
+                            }
+                            if !b.sem_after.ins.is_empty() {
+                                lists.push((i, Mode::SemanticAfter));
+                            }
+                            if !b.block_entry.ins.is_empty() {
+                                lists.push((i, Mode::BlockEntry));
+                            }
+                            if !b.block_exit.ins.is_empty() {
+                                lists.push((i, Mode::BlockExit));
+                            }
+                        }
+                        if let Some((i, m)) = self.rng.pick_opt(&lists) {
+                            sites.push(Site { instr: *i, mode: *m, body: vec![], magic: 0, tag: None, clear: true });
+                        }
+                        continue;
+                    }
                     let mis = self.p.misapplied && self.rng.chance(1, 6);
                     let final_end_too = self.p.final_end_after && self.rng.chance(1, 6);
                     let cands = site_candidates(l, mode, mis, final_end_too);
@@ -1590,7 +1625,7 @@ impl OpGen<'_> {
                         (b, magic)
                     };
                     let tag = if matches!(mode, Mode::EmptyAlternate | Mode::EmptyBlockAlt) { None } else { self.tag() };
-                    sites.push(Site { instr, mode, body, magic, tag });
+                    sites.push(Site { instr, mode, body, magic, tag, clear: false });
                 }
                 if sites.is_empty() {
                     return None;
